@@ -218,6 +218,25 @@ def run(ctx):
             return None
         if v[0] == "call" and v[1] and v[2] and v[1].endswith(("::to_string", "::to_owned", "::into", "::from")):
             return const_text(du, v[2][0], depth + 1)
+        from ..fmtargs import format_parts, FORMAT_FNS
+        if v[0] == "call" and v[1] == "std::hint::must_use" and v[2]:
+            return const_text(du, v[2][0], depth + 1)
+        if v[0] == "call" and v[1] in FORMAT_FNS:
+            fp = format_parts(du, v)
+            if fp is None:
+                return None
+            parts, args = fp
+            out_, ai = [], 0
+            for prt in parts:
+                if prt[0] == "lit":
+                    out_.append(prt[1])
+                else:
+                    tx_ = const_text(du, args[ai][1], depth + 1) if ai < len(args) else None
+                    ai += 1
+                    if not isinstance(tx_, str):
+                        return None
+                    out_.append(tx_)
+            return "".join(out_)
         return None
     if not reader_lits:
         r3b.violate("C15|R3b|anchor-missing", "the reader's boundary extraction (a split on a constant) was not found")
